@@ -90,6 +90,10 @@ def classify(sh, pos_of, regs):
     executed = [pos_of[j] for j, _ in regs if j in pos_of]
     # effective kinds: only statement 0 may stay unconditional (ssa.Builder.Defer)
     kinds = [d["kind"] if (i == 0 or d["kind"] != "Always") else "Cond" for i, d in enumerate(sh)]
+    # the frame is created where an unconditional first-COMPILED statement stands; a statement that cl/blocks
+    # compiles later but that executes earlier (a nested loop before the straight-line tail) then runs without a frame
+    if executed and kinds and kinds[0] == "Always" and executed[0] != 0:
+        return "defer-executed-before-frame-creating-defer"
     for i, k in enumerate(kinds):
         if k == "Always" and i not in executed:
             if i == 0 and not executed:
@@ -190,7 +194,7 @@ def run(ck):
                 ksh = shapes.get(kfn, {}).get("defers", [])
                 kpos = positions(ksh, line_of, shapes.get(kfn, {}).get("stack_lines") or ())
                 kcls = classify(ksh, kpos, go_runs[keys[len(done)]]["regs"]) if ksh else None
-                ck.violation(kcls if kcls == "defer-lifo-broken-by-block-compile-order" else "defer-run-kills-process",
+                ck.violation(kcls if kcls in ("defer-lifo-broken-by-block-compile-order", "defer-executed-before-frame-creating-defer") else "defer-run-kills-process",
                              "run f%d(%d) (generator seed %d) kills the llgo-compiled process (rc=%s)" % (kfn, kin, seed, a[0]),
                              {"seed": seed, "run": keys[len(done)], "stderr_tail": a[2][-300:], "cls": kcls})
             rest = keys[nxt:]
@@ -228,7 +232,7 @@ def run(ck):
                 # When the run violates the compile-order premise a foreign argument node is decoded with
                 # another statement's layout, which is memory-unsafe (garbage values or a crash).
                 cls0 = classify(sh, pos_of, gr["regs"])
-                key0 = cls0 if cls0 == "defer-lifo-broken-by-block-compile-order" else "defer-run-missing"
+                key0 = cls0 if cls0 in ("defer-lifo-broken-by-block-compile-order", "defer-executed-before-frame-creating-defer") else "defer-run-missing"
                 ck.violation(key0, "run f%d(%d) (generator seed %d) produced no complete trace under llgo; Go's deferred calls: %s" % (fn, inp, seed, gr["calls"][:8]),
                              {"seed": seed, "fn": fn, "in": inp, "shape": sh, "go_regs": gr["regs"], "cls": cls0})
                 continue
@@ -275,7 +279,7 @@ def run(ck):
         # llgo differs from Go: property violation; known only if the faithful model explains it
         # a premise violation explains the difference: exactly (model agrees) for the drain class; for the
         # compile-order class the code decodes a foreign node (memory-unsafe), so payloads cannot be predicted
-        key = m["cls"] if (m["cls"] and (i not in bad or m["cls"] == "defer-lifo-broken-by-block-compile-order")) else "defer-trace-differs"
+        key = m["cls"] if (m["cls"] and (i not in bad or m["cls"] in ("defer-lifo-broken-by-block-compile-order", "defer-executed-before-frame-creating-defer"))) else "defer-trace-differs"
         nknown[key] += 1
         ck.violation(key, "f%d(%d) (generator seed %d): deferred calls under llgo %s, Go %s" % (m["fn"], m["in"], m["seed"], m["llgo_calls"][:8], m["go_calls"][:8]), m)
     # recover / re-panic outcomes predicted by the model from the executed defers and the body's panic
@@ -321,7 +325,8 @@ def run(ck):
                 key = {"nested": "recover-in-nested-call-stops-panic", "loopThenDefer": "defer-lifo-broken-by-block-compile-order",
                        "alwaysUnreached": "defer-always-replayed-though-never-reached",
                        "drainCross": "defer-loop-drain-crosses-argless-defer",
-                       "rfNamedOnly": "rangefunc-only-defers-lose-named-result-changes"}.get(name, "defer-probe-" + name)
+                       "rfNamedOnly": "rangefunc-only-defers-lose-named-result-changes",
+                       "nestedLoopThenDefer": "defer-executed-before-frame-creating-defer"}.get(name, "defer-probe-" + name)
                 if name == "rfNamedOnly" and not (got and got[0] == "rfNamed 1 7"):
                     key = "defer-probe-" + name      # the listed finding is exactly `rfNamed 1 7` (operands of the return statements)
                 ck.violation(key, "probe %s: llgo %s vs go %s" % (name, got, want), {"probe": name, "llgo": got, "go": want, "rc": a[0]})
